@@ -129,3 +129,16 @@ PROPS.update({
     "C12": _mach_prop(["replay protection for TOTP needs the application's user type to implement UserOneTime"]),
     "C14": _mach_prop(["'identifier separator' is the character ';' (sharp boundary proven)"]),
 })
+
+PROPS.update({
+    "C15": {
+        "ties": ["Responder", "OAuth2", "Auth", "Otp", "Totp", "Sms"],
+        "streams": {"quick": [{"name": "c15", "n": 20000}, MACH_QUICK],
+                    "thorough": [{"name": "c15", "n": 300000, "seeds": 4}, MACH_THOROUGH]},
+        "level": "proof",
+        "assumptions": ["the browser side is a specification written from the WHATWG URL standard, restricted to what decides same-origin vs not, conservative (anything not clearly same-site counts as off-site); it cannot be cross-checked against a browser in this sandbox",
+                        "net/url parsing is a universally quantified bit in the theorem (relative or not); path.Clean is modelled (PathClean.lean) and diffed against the real http.Redirect on every accepted value",
+                        "RedirectPath values configured by the application are same-site"],
+        "trusted_base": ["net/http.Redirect, path.Clean, net/url (real, under the harness)"],
+    },
+})
